@@ -166,6 +166,49 @@ def closure4_history(rng, hid, lang, params):
     return h
 
 
+def stale_join_history(rng, hid, lang, params):
+    """directed family: JOIN of two values over 2-3 variables in which a relational constraint was assumed BEFORE bounds that
+    make it redundant (an explicit but stale edge), against a value holding a relational constraint on the same pair that
+    is tighter than its own bounds; both operand orders, in place and not; then the constraints of the language between the
+    two variables are queried around the exact answer (the join must be the LEAST value above both)."""
+    nv = 3
+    s_, d_ = rng.sample([1, 2, 3], 2)
+    sgd, sgs = (1, -1) if lang == "zone" or rng.random() < 0.6 else rng.choice([(1, 1), (-1, -1), (-1, 1)])
+    rel = lambda k: {"e": {"k": -k, "t": [[sgd, d_], [sgs, s_]]}, "r": "le"}          # sgd*d + sgs*s <= k
+    bnd = lambda v, sg, k: {"e": {"k": -k, "t": [[sg, v]]}, "r": "le"}                # sg*v <= k
+    steps = [{"op": "box", "r": r, "ord": box_order(rng, nv)} for r in (1, 2, 3)]
+
+    def operand(r, stale_first):
+        lo_s, lo_d = rng.randint(-R, R - 1), rng.randint(-R, R - 1)
+        hi_s, hi_d = rng.randint(lo_s, R), rng.randint(lo_d, R)
+        bounds = [bnd(s_, 1, hi_s), bnd(s_, -1, -lo_s), bnd(d_, 1, hi_d), bnd(d_, -1, -lo_d)]
+        rng.shuffle(bounds)
+        # what the bounds imply for sgd*d + sgs*s
+        imp = (hi_d if sgd == 1 else -lo_d) + (hi_s if sgs == 1 else -lo_s)
+        k = imp + rng.randint(1, 3) if stale_first else imp - rng.randint(0, 2)
+        cs = [rel(k)] + bounds if stale_first else bounds + [rel(k)]
+        for c in cs:
+            steps.append({"op": "assume", "r": r, "c": c})
+    a_stale = rng.random() < 0.8
+    operand(1, a_stale)
+    operand(2, rng.random() < 0.3)
+    a, b = (1, 2) if rng.random() < 0.5 else (2, 1)
+    if rng.random() < 0.4:
+        steps.append({"op": "join", "r": a, "a": a, "b": b, "inplace": 1})
+        j = a
+    else:
+        steps.append({"op": "join", "r": 3, "a": a, "b": b})
+        j = 3
+    for k in range(-2 * R, 2 * R + 1, 1):
+        if rng.random() < 0.45:
+            steps.append({"op": "entails", "r": j, "c": rel(k)})
+    steps.append({"op": "leq", "r": 0, "a": 1 if j != 1 else 2, "b": j})
+    h = {"id": hid, "mode": "exact", "lang": lang, "R": R, "nv": nv, "nregs": 3, "steps": steps, "family": "stalejoin"}
+    if params:
+        h["params"] = params
+    return h
+
+
 def lift_history(rng, hid, maxlen, params):
     nv = 3
     ints = [1, 2, 3]
@@ -463,6 +506,14 @@ def run(tier, seed):
                 hid += 1
                 hs.append(closure4_history(ck.rng, hid, lang, ck.rng.choice(PARAMS)))
             batches.append(("%sclosure4_%d" % (lang, c0 // 300), hs))
+    nsj = 120 if tier == "quick" else 1200
+    for lang in ("zone", "oct"):
+        for c0 in range(0, nsj, 400):
+            hs = []
+            for _ in range(min(400, nsj - c0)):
+                hid += 1
+                hs.append(stale_join_history(ck.rng, hid, lang, ck.rng.choice(PARAMS)))
+            batches.append(("%sstalejoin_%d" % (lang, c0 // 400), hs))
     failed_fams = set()
     only = os.environ.get("C12_ONLY")       # developer option: restrict to one family (itv|zone|oct|lift)
     for label, hs in batches:
